@@ -33,6 +33,7 @@ PROFILES = {
     "grumpy-bool": st.one_of(K, K, K, TRUTHY_PRIMS, GR("bool")),
     "grumpy-order": st.one_of(K, K, K, K, GR("lt")),
     "grumpy-eq": st.one_of(K, K, K, GR("eq")),
+    "eq-all": st.one_of(K, K, TRUTHY_PRIMS, st.just(("EQ",))),
     "grumpy-hash": st.one_of(K, K, K, GR("hash", "eq")),
     "grumpy-add": st.one_of(K, K, K, GR("add")),
     "inexact": st.one_of(INEXACT_FLOATS, INEXACT_FLOATS, st.integers(-2, 5).map(lambda n: ["i", n])),
@@ -73,6 +74,9 @@ class Uids:
         if isinstance(v, tuple) and v and v[0] == "AW":
             self.n += 1
             return ["W", self.n - 1]
+        if isinstance(v, tuple) and v and v[0] == "EQ":
+            self.n += 1
+            return ["E", self.n - 1]
         if isinstance(v, (list, tuple)) and v and v[0] in ("t", "l"):
             return [v[0], [self.fix(x) for x in v[1]]]
         return list(v) if isinstance(v, tuple) else v
@@ -109,7 +113,7 @@ ISLICE_ARGS = st.one_of(
 
 
 @st.composite
-def base_case(draw, name, max_len=8, max_src=4, steps="full", min_len=0, min_src=0):
+def base_case(draw, name, max_len=8, max_src=4, steps="full", min_len=0, min_src=0, aliasing=False):
     """A fault-free case with default flavours (async generator sources, def callables)."""
     tool = TOOLS[name]
     uids = Uids()
@@ -127,6 +131,11 @@ def base_case(draw, name, max_len=8, max_src=4, steps="full", min_len=0, min_src
         if name == "compress" and i == 1:
             e = PROFILES["truthy"]
         items = [uids.fix(x) for x in draw(st.lists(e, min_size=min_len, max_size=max(max_len, min_len)))]
+        if i >= 1 and aliasing and draw(st.integers(0, 5)) == 0:
+            # the very same iterator object is passed again (the zip(*[it]*n) grouper idiom)
+            srcs.append({"items": [], "fl": "agen", "susp": 0, "csusp": False, "fault": None,
+                         "alias": draw(st.integers(0, i - 1))})
+            continue
         srcs.append({"items": items, "fl": "agen", "susp": 0, "csusp": False, "fault": None})
     fns = {}
     for role, fnkind in tool.roles:
@@ -153,6 +162,8 @@ def base_case(draw, name, max_len=8, max_src=4, steps="full", min_len=0, min_src
             sentinel = uids.fix(("K", target[1])) if target[0] == "I" else target
         else:
             sentinel = value_of_profile()
+        if profile == "eq-all":
+            sentinel = draw(st.sampled_from([["n"], ["s", "never"], ["i", 77]]))
         v["sentinel"] = sentinel
         srcs[0]["tail"] = uids.fix(("K", sentinel[1])) if sentinel[0] == "I" else sentinel
         srcs[0]["fl"] = "def"
@@ -174,6 +185,8 @@ def base_case(draw, name, max_len=8, max_src=4, steps="full", min_len=0, min_src
     elif name == "merge":
         params["reverse"] = draw(st.booleans())
         for s in srcs:
+            if s.get("alias") is not None:
+                continue
             if "key" in fns:
                 keyf = lambda it: table_key(fns["key"], it)  # noqa: E731
             else:
